@@ -34,6 +34,8 @@ type Recipe struct {
 	// Via (root only): "" = fresh objects from the constructors; "shared" = equal sub-recipes are ONE instance
 	// (the same type object at several positions); "parsed" = the type the parser makes of the text of that type
 	Via string `json:"via,omitempty"`
+	// Object (objtype.go): nil = the default Object type
+	Obj *OR `json:"obj,omitempty"`
 }
 
 // buildMemo: when not nil, Build returns the same instance for equal recipes
@@ -203,6 +205,11 @@ func (s *Recipe) build() px.Type {
 			block = s.Block.Build()
 		}
 		return types.NewCallableType(types.NewTupleType(s.subTypes(), sz), ret, block)
+	case "Object":
+		if s.Obj == nil {
+			return types.DefaultObjectType()
+		}
+		return s.Obj.Build()
 	case "TypeRef":
 		return types.NewTypeReferenceType(s.S)
 	case "Runtime":
@@ -224,6 +231,17 @@ func (s *Recipe) contains(kind string) bool {
 			return true
 		}
 	}
+	if s.Obj != nil {
+		found := false
+		s.Obj.eachRecipe(func(r *Recipe) {
+			if r.K == kind {
+				found = true
+			}
+		})
+		if found {
+			return true
+		}
+	}
 	return s.Ret.contains(kind) || s.Block.contains(kind)
 }
 
@@ -238,4 +256,7 @@ func (s *Recipe) walk(f func(r *Recipe)) {
 	}
 	s.Ret.walk(f)
 	s.Block.walk(f)
+	if s.Obj != nil {
+		s.Obj.eachRecipe(f)
+	}
 }
